@@ -463,7 +463,7 @@ def native_replay(unit, udir, g, inputs, work):
         return None
     exe = os.path.join(work, 'replay_%s' % g['name'])
     srcs = [os.path.join(udir, rp['driver'])] + [os.path.join(REPO, s) for s in rp.get('repo_sources', [])]
-    cmd = ['g++'] + BASE_CXXFLAGS + rp.get('cxxflags', []) + ['-I' + os.path.join(work, 'frag'), '-I' + udir, '-I' + os.path.join(VERIF, 'units', 'common')] + srcs + ['-o', exe, '-lpthread']
+    cmd = ['g++'] + BASE_CXXFLAGS + rp.get('cxxflags', []) + ['-I' + os.path.join(work, 'frag'), '-I' + udir, '-I' + os.path.join(VERIF, 'units', 'common')] + srcs + ['-o', exe] + rp.get('libs', []) + ['-lpthread']
     rc, out, err, dt = sh(cmd, timeout=600, mem=False)
     if rc != 0:
         return {'built': False, 'cmd': ' '.join(cmd), 'output': (err + out)[-2000:], 'reproduced': False}
